@@ -35,6 +35,56 @@ def digest(v):
     return hashlib.sha1(b).hexdigest()
 
 
+def shape_of(v):
+    """The value with every float replaced by 0.0: values that can be equal up to round-off share it."""
+    if isinstance(v, float):
+        return 0.0
+    if isinstance(v, tuple):
+        return tuple(shape_of(x) for x in v)
+    return v
+
+
+def canon(v):
+    """A returned value as nested tuples of numbers and strings, for comparison up to floating-point round-off."""
+    import networkx as nx
+    import pandas as pd
+    from gemdat.collective import Collective
+    if isinstance(v, Collective):
+        return ('Collective', int(v.n_solo_jumps), tuple((tuple(map(int, a)), tuple(map(int, b))) for a, b in v.coll_jumps), float(v.max_dist))
+    if isinstance(v, pd.DataFrame):
+        return ('df', tuple(map(str, v.columns)), tuple(map(str, v.index)), canon(v.to_numpy()))
+    if isinstance(v, nx.Graph):
+        return ('graph', tuple(sorted(map(repr, v.nodes))), tuple(sorted((repr(a), repr(b), canon(d)) for a, b, d in v.edges(data=True))))
+    if isinstance(v, np.ndarray):
+        if v.dtype.kind in 'fc':
+            return ('nd', v.shape, tuple(float(x) for x in np.asarray(v, dtype=float).ravel()))
+        if v.dtype.kind == 'O':
+            return ('ndo', v.shape, tuple(canon(x) for x in v.ravel()))
+        return ('ndi', v.shape, str(v.dtype), v.tobytes())
+    if isinstance(v, dict):
+        return ('dict', tuple(sorted((repr(k), canon(x)) for k, x in v.items())))
+    if isinstance(v, (list, tuple)):
+        return (type(v).__name__, tuple(canon(x) for x in v))
+    if isinstance(v, (bool, int, str, type(None))):
+        return v
+    if isinstance(v, (float, np.floating)):
+        return float(v)
+    try:
+        return ('num', float(v), repr(type(v).__name__))          # FloatWithUnit, ufloat nominal values ...
+    except Exception:      # noqa
+        return ('repr', repr(v))
+
+
+def same_value(a, b, rel=1e-9, abs_=1e-12):
+    """Equality of two canon() values; floats up to round-off (a memoised value may have been computed while the trajectory was held in
+    the other internal representation: positions <-> displacements round trips differ in the last bits)."""
+    if isinstance(a, float) and isinstance(b, float):
+        return a == b or (a != a and b != b) or abs(a - b) <= abs_ + rel * max(abs(a), abs(b))
+    if isinstance(a, tuple) and isinstance(b, tuple):
+        return len(a) == len(b) and all(same_value(x, y, rel, abs_) for x, y in zip(a, b))
+    return type(a) is type(b) and a == b
+
+
 class Driver:
     def __init__(self, b):
         self.b = b
@@ -43,12 +93,27 @@ class Driver:
         self.alive = {}         # oid -> [bool]
         self.next = 1
         self.tags = {}
+        self.values = {}        # shape digest -> [(tag, canon value)]
         self.reported_dead = set()
         self.addr_seen = {}
         self.addr_reuse = 0
 
     def tag(self, d):
         return self.tags.setdefault(d, len(self.tags) + 1)
+
+    def tag_of(self, value):
+        """Tag of a canon() value: the tag of the first value seen that equals it up to round-off."""
+        key = digest(value)
+        if key in self.tags:
+            return self.tags[key]
+        bucket = digest(shape_of(value))
+        for (t, v) in self.values.setdefault(bucket, []):
+            if same_value(v, value):
+                self.tags[key] = t
+                return t
+        t = self.tag(key)
+        self.values[bucket].append((t, value))
+        return t
 
     def create(self, obj, parents=()):
         o = self.next
@@ -70,15 +135,16 @@ class Driver:
         # a call that rejects its arguments is an outcome like any other: same exception from the memoised and the plain method, and
         # (checked at the next Collect) no reference to the object left behind
         try:
-            got = digest(getattr(obj, name)(*args, **kw))
+            got = canon(getattr(obj, name)(*args, **kw))
         except Exception as e:      # noqa
             got = f'raised:{type(e).__name__}:{e}'
         try:
-            fresh = digest(meth.__wrapped__(obj, *args, **kw))
+            fresh = canon(meth.__wrapped__(obj, *args, **kw))
         except Exception as e:      # noqa
             fresh = f'raised:{type(e).__name__}:{e}'
+        # tags: equal values (up to round-off) get equal tags -- also across calls: a value seen before keeps its tag
         self.recs.append({'b': self.b, 'act': 'Call', 'o': o, 'm': name, 'x': repr((args, sorted(kw.items()))),
-                          'rtag': self.tag(got), 'ftag': self.tag(fresh)})
+                          'rtag': self.tag_of(got), 'ftag': self.tag_of(fresh)})
         del obj
 
     def drop(self, o):
@@ -217,6 +283,23 @@ def real_behaviour(b, rng, n_objects=12, n_steps=60):
         r = new_chain()
         if r:
             kinds[r[0]], kinds[r[1]], kinds[r[2]] = 'T', 'J', 'M'
+    if b % 4 == 0:
+        # directed: every plotting front-end once on the first Jumps object, each followed by the memoised methods it reads
+        o = next((x for x in d.objs if kinds.get(x) == 'J'), None)
+        if o is not None:
+            for k_, name in enumerate(['plot_jumps_3d', 'plot_jumps_vs_distance', 'plot_jumps_vs_time', 'plot_collective_jumps']):
+                backend = ['plotly', 'matplotlib'][(k_ + b // 4) % 2]
+                try:
+                    fig = getattr(d.objs[o], name)(backend=backend)
+                    if backend == 'matplotlib':
+                        import matplotlib.pyplot as plt
+                        plt.close('all')
+                    del fig
+                except Exception:       # noqa
+                    pass
+                d.call(o, 'matrix')
+                d.call(o, 'jump_diffusivity', 3)
+                d.call(o, 'counter')
     for _ in range(n_steps):
         live = list(d.objs)
         r = rng.random()
